@@ -62,7 +62,14 @@ class IndicatorFromMathExpression(Indicator):
 
     def __init__(self, **data) -> None:
         super().__init__(**data)
-        self.append_z3_assertion(self._indicator_variable == self.expression)
+        expression = self.expression
+        if isinstance(expression, float):
+            expression = z3.RealVal(expression)
+        if z3.is_expr(expression) and z3.is_real(expression):
+            # the indicator is an integer: a real-valued expression is rounded down
+            # (otherwise any schedule that gives it a fractional value is forbidden)
+            expression = z3.ToInt(expression)
+        self.append_z3_assertion(self._indicator_variable == expression)
 
 
 class IndicatorResourceUtilization(Indicator):
